@@ -243,7 +243,16 @@ func SweepAll(pkgPrefix string, max int, benign bool) int {
 	}
 	fns := map[string]bool{}
 	var bases []base
+	only := map[string]bool{}
+	for _, id := range strings.Split(os.Getenv("SIOT_SWEEP_PROPS"), ",") {
+		if id != "" {
+			only[id] = true
+		}
+	}
 	for _, id := range IDs() {
+		if len(only) > 0 && !only[id] {
+			continue
+		}
 		p := Lookup(id)
 		rep := newReport(id, "quick")
 		func() {
